@@ -152,3 +152,142 @@ Proof.
   { apply zsum_sub_le; [exact Hnd' | apply incl_seq, Hr' | intros; apply HVpos]. }
   lia.
 Qed.
+
+(* ---------------------------------------------------------------------------------------------- *)
+(* best_partial: exhaustive optimum over partial one-to-one matchings *)
+Section BestPartial.
+  Variable wf : N -> N -> option Z.
+  Variable thr : Z.
+
+  Definition valid_pm (ds ts : list N) (M : pmatch) : Prop :=
+    map fst M = ds /\ NoDup (matched M) /\
+    forall d t, In (d, Some t) M -> In t ts /\ wf d t <> None.
+
+  Definition bval (b : bres) : Z := fst (fst b).
+  Definition bpm (b : bres) : pmatch := snd (fst b).
+
+  Lemma better_cases b1 b2 :
+    (fst (better b1 b2) = fst b1 \/ fst (better b1 b2) = fst b2) /\
+    bval b1 <= bval (better b1 b2) /\ bval b2 <= bval (better b1 b2).
+  Proof.
+    destruct b1 as [[v1 m1] c1], b2 as [[v2 m2] c2]. unfold better, bval. cbn [fst snd].
+    destruct (Z.ltb_spec v1 v2); cbn [fst]; [split; [right; reflexivity | lia]|].
+    destruct (Z.eqb_spec v1 v2); cbn [fst]; (split; [left; reflexivity | lia]).
+  Qed.
+
+  Lemma fold_better_spec opts : forall b0,
+    (fst (fold_left better opts b0) = fst b0 \/ exists o, In o opts /\ fst (fold_left better opts b0) = fst o) /\
+    bval b0 <= bval (fold_left better opts b0) /\
+    forall o, In o opts -> bval o <= bval (fold_left better opts b0).
+  Proof.
+    induction opts as [|o opts IH]; intro b0; cbn [fold_left].
+    - split; [left; reflexivity|]. split; [lia | intros o []].
+    - destruct (IH (better b0 o)) as [H1 [H2 H3]]. destruct (better_cases b0 o) as [C1 [C2 C3]].
+      split; [|split].
+      + destruct H1 as [H1|[o' [Ho' H1]]].
+        * destruct C1 as [C1|C1]; [left; congruence | right; exists o; split; [left; reflexivity | congruence]].
+        * right. exists o'. split; [right; exact Ho' | exact H1].
+      + lia.
+      + intros o' [Ho'|Ho']; [subst; lia | apply H3, Ho'].
+  Qed.
+
+  Lemma matched_cons e M : matched (e :: M) = match snd e with Some t => t :: matched M | None => matched M end.
+  Proof. unfold matched. cbn [flat_map]. destruct (snd e); reflexivity. Qed.
+
+  Lemma matched_In t M : In t (matched M) <-> exists d, In (d, Some t) M.
+  Proof.
+    unfold matched. rewrite in_flat_map. split.
+    - intros [[d o] [Hin Ht]]. cbn [snd] in Ht. destruct o as [t'|]; [|contradiction].
+      destruct Ht as [Ht|[]]. subst. exists d. exact Hin.
+    - intros [d Hin]. exists (d, Some t). split; [exact Hin | left; reflexivity].
+  Qed.
+
+  Lemma removeN_In x t l : In x (removeN t l) <-> In x l /\ x <> t.
+  Proof.
+    unfold removeN. rewrite filter_In. rewrite negb_true_iff. split; intros [H1 H2]; (split; [exact H1|]).
+    - intro E. subst. rewrite N.eqb_refl in H2. discriminate.
+    - apply N.eqb_neq. congruence.
+  Qed.
+
+  Lemma pm_value_cons e M : pm_value wf thr (e :: M) = pm_term wf thr e + pm_value wf thr M.
+  Proof. reflexivity. Qed.
+
+  Lemma bp_spec ds : forall ts,
+    valid_pm ds ts (bpm (bp wf thr ds ts)) /\
+    pm_value wf thr (bpm (bp wf thr ds ts)) = bval (bp wf thr ds ts) /\
+    forall M, valid_pm ds ts M -> pm_value wf thr M <= bval (bp wf thr ds ts).
+  Proof.
+    induction ds as [|d ds IH]; intro ts.
+    - cbn [bp]. unfold bpm, bval. cbn [fst snd]. split; [|split].
+      + split; [reflexivity|]. split; [constructor | intros ? ? []].
+      + reflexivity.
+      + intros M [HM _]. destruct M; [cbn; lia | discriminate].
+    - cbn [bp]. destruct (bp wf thr ds ts) as [[v0 m0] c0] eqn:E0.
+      set (opts := flat_map _ ts).
+      set (b0 := (v0 + thr, (d, None) :: m0, c0)).
+      destruct (IH ts) as [V0 [P0 O0]]. rewrite E0 in V0, P0, O0. unfold bpm, bval in V0, P0, O0. cbn [fst snd] in V0, P0, O0.
+      (* every option is a valid matching with its value *)
+      assert (forall o, In o opts ->
+                exists t x, In t ts /\ wf d t = Some x /\
+                  bpm o = (d, Some t) :: bpm (bp wf thr ds (removeN t ts)) /\
+                  bval o = bval (bp wf thr ds (removeN t ts)) + x) as Hopts.
+      { intros o Ho. unfold opts in Ho. apply in_flat_map in Ho. destruct Ho as [t [Ht Ho]].
+        destruct (wf d t) as [x|] eqn:Ew; [|contradiction].
+        destruct (bp wf thr ds (removeN t ts)) as [[v m] c] eqn:Eb. destruct Ho as [Ho|[]]. subst o.
+        exists t, x. unfold bpm, bval. cbn [fst snd]. repeat split; try reflexivity; assumption. }
+      assert (valid_pm (d :: ds) ts (bpm b0) /\ pm_value wf thr (bpm b0) = bval b0) as Hb0.
+      { unfold b0, bpm, bval. cbn [fst snd]. destruct V0 as [A [B C]]. split.
+        - split; [cbn [map fst]; f_equal; exact A|]. split; [rewrite matched_cons; exact B|].
+          intros d' t [H|H]; [discriminate | apply C, H].
+        - rewrite pm_value_cons. unfold pm_term. cbn [snd]. lia. }
+      assert (forall o, In o opts -> valid_pm (d :: ds) ts (bpm o) /\ pm_value wf thr (bpm o) = bval o) as Hval.
+      { intros o Ho. destruct (Hopts o Ho) as [t [x [Ht [Ew [Em Ev]]]]].
+        destruct (IH (removeN t ts)) as [[A [B C]] [P _]]. rewrite Em, Ev. split.
+        - split; [cbn [map fst]; f_equal; exact A|]. split.
+          + rewrite matched_cons. cbn [snd]. constructor; [|exact B].
+            intro Hin. apply matched_In in Hin. destruct Hin as [d' Hin]. apply C in Hin.
+            destruct Hin as [Hin _]. apply removeN_In in Hin. destruct Hin as [_ Hin]. congruence.
+          + intros d' t' [H|H].
+            * inversion H; subst. split; [exact Ht | congruence].
+            * apply C in H. destruct H as [H1 H2]. apply removeN_In in H1. tauto.
+        - rewrite pm_value_cons. unfold pm_term. cbn [fst snd]. rewrite Ew. lia. }
+      destruct (fold_better_spec opts b0) as [F1 [F2 F3]].
+      set (r := fold_left better opts b0) in *.
+      assert (bpm r = bpm b0 /\ bval r = bval b0 \/ exists o, In o opts /\ bpm r = bpm o /\ bval r = bval o) as Hr.
+      { unfold bpm, bval. destruct F1 as [F1|[o [Ho F1]]]; [left | right; exists o; split; [exact Ho|]]; rewrite F1; tauto. }
+      split; [|split].
+      + destruct Hr as [[E1 _]|[o [Ho [E1 _]]]]; rewrite E1; [apply Hb0 | apply Hval, Ho].
+      + destruct Hr as [[E1 E2]|[o [Ho [E1 E2]]]]; rewrite E1, E2; [apply Hb0 | apply Hval, Ho].
+      + intros M [HM [HN HC]]. destruct M as [|[d' o] M]; [discriminate|].
+        cbn [map fst] in HM. inversion HM as [[Hd HM']]. subst d'.
+        rewrite pm_value_cons. unfold pm_term. cbn [fst snd]. rewrite matched_cons in HN. cbn [snd] in HN.
+        destruct o as [t|].
+        * assert (In t ts /\ wf d t <> None) as [Ht Hw] by (apply HC; left; reflexivity).
+          destruct (wf d t) as [x|] eqn:Ew; [|congruence].
+          inversion HN as [|? ? Hnt HN']; subst.
+          assert (valid_pm ds (removeN t ts) M) as HV.
+          { split; [exact HM'|]. split; [exact HN'|]. intros d' t' Hin.
+            assert (In t' ts /\ wf d' t' <> None) as [H1 H2] by (apply HC; right; exact Hin).
+            split; [|exact H2]. apply removeN_In. split; [exact H1|]. intro E. subst t'.
+            apply Hnt. apply matched_In. exists d'. exact Hin. }
+          destruct (IH (removeN t ts)) as [_ [_ O]]. specialize (O M HV).
+          assert (exists o, In o opts /\ bval o = bval (bp wf thr ds (removeN t ts)) + x) as [o [Ho Eo]].
+          { destruct (bp wf thr ds (removeN t ts)) as [[v m] c] eqn:Eb.
+            exists (v + x, (d, Some t) :: m, c). split; [|reflexivity].
+            unfold opts. apply in_flat_map. exists t. split; [exact Ht|]. rewrite Ew, Eb. left. reflexivity. }
+          specialize (F3 o Ho). lia.
+        * assert (valid_pm ds ts M) as HV.
+          { split; [exact HM'|]. split; [exact HN|]. intros d' t' Hin. apply HC. right. exact Hin. }
+          specialize (O0 M HV). unfold b0, bval in F2. cbn [fst] in F2. unfold bval. lia.
+  Qed.
+End BestPartial.
+
+Lemma best_partial_optimal_lemma thr s M :
+  valid_pm (lastw s) (froms s) (tos s) M ->
+  pm_value (lastw s) thr M <= fst (fst (best_partial thr s)).
+Proof. intro H. apply (bp_spec (lastw s) thr (froms s) (tos s)). exact H. Qed.
+
+Lemma best_partial_attained_lemma thr s :
+  valid_pm (lastw s) (froms s) (tos s) (snd (fst (best_partial thr s))) /\
+  pm_value (lastw s) thr (snd (fst (best_partial thr s))) = fst (fst (best_partial thr s)).
+Proof. destruct (bp_spec (lastw s) thr (froms s) (tos s)) as [H1 [H2 _]]. split; assumption. Qed.
